@@ -1328,3 +1328,42 @@ pub fn dev_hostile_used<const N: usize>(q: usize, pos: u16, id: u32, len: u32, u
         m.used.idx.store(used_idx, Ordering::Relaxed);
     }
 }
+
+/// C09: after a successful construction and drop: every DMA release is ordered after queue_unset of all `nq`
+/// queues or after the device reset; everything allocated was released exactly once.
+pub fn check_teardown(nq: usize, ndma: usize) {
+    unsafe {
+        let reset = ev_find(EV_RESET_ON_DROP, None, 0);
+        let mut last_unset = 0usize;
+        let mut all_unset = true;
+        let mut q = 0;
+        while q < MAXQ {
+            if q < nq {
+                match ev_find(EV_QUEUE_UNSET, Some(q as u64), 0) {
+                    Some(i) => { if i > last_unset { last_unset = i; } }
+                    None => all_unset = false,
+                }
+            }
+            q += 1;
+        }
+        let mut i = 0;
+        while i < MAXEV {
+            if i < EV_N && EVK[i] == EV_DMA_DEALLOC {
+                assert!((all_unset && last_unset < i) || (reset.is_some() && reset.unwrap() < i), "C09: queue memory released while the device was live on that queue");
+            }
+            i += 1;
+        }
+        assert!(dma_live_count() == 0 && DMA_CNT == ndma, "C09: every DMA region must be returned exactly once");
+        let mut d = 0;
+        while d < MAXDMA {
+            if d < DMA_CNT { assert!(DMA[d].deallocs == 1, "C09: DMA region released more or less than once"); }
+            d += 1;
+        }
+    }
+}
+/// C09: after a construction that failed because a DMA allocation failed
+pub fn check_failed_new(e: Error) {
+    assert!(e == Error::DmaError, "C09: DMA exhaustion must be reported as DmaError");
+    assert!(dma_live_count() == 0, "C09: DMA region leaked by a failed construction");
+    assert!(ev_find(EV_SET_STATUS, Some(15), 0).is_none(), "C08: DRIVER_OK set by a failed construction");
+}
